@@ -42,6 +42,22 @@ EXTRA = ("Prefer mechanisms that differ in KIND from everything listed below. Re
          "same process, and a 'harmless' change to what a helper RETURNS for a rare argument (None vs '' vs [], a tuple that gains a field, a "
          "generator instead of a list).  Run `git -C <your worktree> log --oneline | head -45` to see what was fixed lately and make sure "
          "your change is not simply the reverse of one of those commits.  If the property allows, put your two variants in two different files.")
+EXTRA_R8 = EXTRA
+EXTRA = ("Prefer mechanisms that differ in KIND from everything listed below. This time think like a reviewer who has to find the ONE line of a "
+         "large, reasonable-looking pull request that is wrong: bugs of omission (a new branch that forgets a step its sibling branch performs; "
+         "a second call site of a helper that is not updated with the first), the wrong one of two similar variables reused (raw vs cleaned text, "
+         "signed vs absolute amount, per-transaction vs per-merchant value, index vs count), `x or default` where 0 / '' / [] are legitimate "
+         "values, shallow copies of nested data, str methods with subtly different reach (strip vs rstrip vs removesuffix, split with and "
+         "without maxsplit, partition vs rpartition, title vs capitalize, isdigit vs isdecimal), `in` on a string vs on a list, slices that are "
+         "off by one at the ends, comparisons of floats for equality, `sorted` with a key that ties, `max`/`min` on an empty or single-element "
+         "collection, `zip` that silently truncates, dict.update order, `any`/`all` over generators consumed twice, except clauses reordered, "
+         "and messages or keys that another function later parses or looks up.  Spread out: prefer the files analyzer.py, report.py, "
+         "config_loader.py, format_parser.py, section_engine.py, classification.py, merchant_utils.py, parsers.py and commands/*.py over "
+         "expr_parser.py and merchant_engine.py unless the property lives there.  Run `git -C <your worktree> log --oneline | head -50` and "
+         "make sure your change is not simply the reverse of one of those commits.  Put your two variants in two different files if the "
+         "property allows.")
+if len(sys.argv) > 2 and sys.argv[2] == 'r8':
+    EXTRA = EXTRA_R8
 if len(sys.argv) > 2 and sys.argv[2] == 'r7':
     EXTRA = EXTRA_R7
 if len(sys.argv) > 2 and sys.argv[2] == 'r6':
